@@ -61,6 +61,7 @@ class ObsHarness(ex.Harness):
                 lst = emitters.setdefault(self.wname, [])
                 self.inst = len(lst)
                 lst.append(self)
+                log.append(("emitter", self.wname, self.inst))
                 self.script = list(prog.get("scripts", {}).get(self.wname, ()))
                 self.k = 0
                 self._h = 100 + 10 * WNAMES.index(self.wname) + self.inst
@@ -169,6 +170,7 @@ class ObsHarness(ex.Harness):
             t.start()
         s.idle("drain")   # application threads have finished or sit in a join() that needs a stop()
         log.append(("quiescent",))
+        alive_emitters = sorted(e.wname for e in obs.emitters if e.is_alive())
         reg = {}
         try:
             reg = {("%s%s" % (w.path[1:], "r" if w.is_recursive else "")): sorted(h.hname for h in hs)
@@ -186,7 +188,9 @@ class ObsHarness(ex.Harness):
         log.append(("end",))
         lib_alive = sorted(t.name for t in s.live_threads()
                            if isinstance(t.obj, wd.mod("watchdog.utils").BaseThread))
-        return dict(log=log, lib_alive=lib_alive, registry=reg)
+        return dict(log=log, lib_alive=lib_alive, registry=reg, alive_emitters=alive_emitters,
+                    running=any(e[0] == "ret" and e[3] == ("start",) and e[4] is None for e in log)
+                    and not any(e[0] == "call" and e[3] == ("stop",) and e[1] != "M" for e in log))
 
     def outcome(self, res):
         if res.value is None:
@@ -372,6 +376,13 @@ def check_dispatch(h, res, *, c04=True, c05=True):
                                 merged = True
                     if not merged:
                         v("lost-dispatch", f"{hn} was registered for {w} all the time but never got {eid}")
+    if c04 and res.value.get("running") and not any(e[0] == "call" and e[3][0] == "stop" for e in log[:q_idx]):
+        # registry and emitters agree at quiescence: a watch that has registered handlers has a live emitter
+        # (the registry is read by introspection; silently skipped if the attribute is not there)
+        for w, hs in (res.value.get("registry") or {}).items():
+            if hs and w not in res.value.get("alive_emitters", ()):
+                v("registered-without-emitter", f"handlers {hs} are registered for {w} at quiescence but no live emitter "
+                                                f"serves that watch (live emitters: {res.value.get('alive_emitters')})")
     if c05:
         # no callback of a removed handler in progress when the removing call returns (unless re-entrant)
         for c in calls:
@@ -399,9 +410,9 @@ def check_dispatch(h, res, *, c04=True, c05=True):
                 for eid, ev in events.items():
                     if ev["q"] > c["ret"] and (op[0] != "unschedule" or eid[0] == op[1]):
                         # queued by an emitter instance that existed before the call?
-                        born = [cc for cc in calls if cc["op"][0] == "schedule" and cc["op"][2] == eid[0]
-                                and cc["call"] > c["call"]]
-                        if not born and not (c["tid"].startswith("R")):
+                        created = [i for i, e in enumerate(log) if e[0] == "emitter" and e[1] == eid[0] and e[2] == eid[1]]
+                        existed = bool(created) and created[0] < c["call"]
+                        if existed and not (c["tid"].startswith("R")):
                             v("emitter-queues-after-unschedule", f"{op} returned at {c['ret']} but the emitter of {eid[0]} "
                                                                  f"queued {eid} afterwards (at {ev['q']})")
             if op[0] in ("unschedule", "unschedule_all", "stop") and c["extra"]:
